@@ -11,6 +11,8 @@ from world import Rng
 ID = "C12"
 LEAN_MODULES = ["QtyModel.Props.C12"]
 HARNESS_GROUPS = ()
+# kinds of difference in the macro-level correspondence (tools/macrofront.py) that are failing inputs here
+MACRO_PARTS = ("verdict:accepted",)
 RULE = ("malformed definitions obtained by applying each defect class (no unit, two reference units, scale on the reference "
         "unit, unit without scale beside a reference unit, scale or prefix without reference unit, wrong number / kind of "
         "attribute arguments, struct fields, generics, not a struct, bad derivation argument, derived from / to a type "
